@@ -299,6 +299,7 @@ type world struct {
 	top       *S
 	wide      bool // object codes are registered as uint32 (some code >= 256), else uint8
 	nameCtr   int
+	topOpts   []serix.Option // the top struct's object code handed over as WithTypeSettings instead of being registered
 	tbMemo    map[int]string // typed array length (or -1) -> "code/key" registered
 	ifaceMemo map[string]int // printed alternatives -> index into ifaceTypes
 	ifaceNext int
@@ -520,7 +521,13 @@ func (w *world) realise(s *S) (reflect.Type, error) {
 			return nil, fmt.Errorf("reflect.StructOf: %s", p)
 		}
 		if s.Code >= 0 {
-			if e := w.api.RegisterTypeSettings(reflect.Zero(s.rt).Interface(), serix.TypeSettings{}.WithObjectType(w.objectType(s.Code))); e != nil {
+			ts := serix.TypeSettings{}.WithObjectType(w.objectType(s.Code))
+			if s == w.top && len(s.String())%3 == 0 {
+				// option variant: the settings of the outermost value come from the call (serix.WithTypeSettings) - they
+				// are merged with the (absent) registered ones exactly like a struct tag's - a function of the schema text,
+				// so that a replay takes the same path
+				w.topOpts = []serix.Option{serix.WithTypeSettings(ts)}
+			} else if e := w.api.RegisterTypeSettings(reflect.Zero(s.rt).Interface(), ts); e != nil {
 				return nil, e
 			}
 		}
